@@ -168,7 +168,8 @@ class Encoder(object):
         Converts a :class:`datetime.date` object to a string with format
         ``YYYY-MM-DD``.
         """
-        return "'%s'" % val.strftime('%Y-%m-%d')
+        # strftime('%Y') does not zero-pad years below 1000 on every platform
+        return "'%04d-%02d-%02d'" % (val.year, val.month, val.day)
 
     def cql_encode_time(self, val):
         """
